@@ -11,7 +11,7 @@ As `Ex.specEx` (Spec/Examples.lean), with the differences of the class:
 * the done getters return the class's own rule (`RT.doneW`, `RT.onlyLeft`) on the dumped world;
 * **a `step` that must not raise** (`stepMustNotRaise`) — every item a point of the declared action space of a
   learning agent of the simulation (alive or not), distinct keys, a world satisfying `WInvWeak`, a reward entry for every
-  learning agent: nothing else (since the repairs ad16495 / d65ea34 of findings R1 / R2 the class no longer raises for a
+  learning agent: nothing else (since the repairs 856b778 / c7ca573 of findings R1 / R2 the class no longer raises for a
   runner killed on the target's cell or for a killed entity without reward entry).  This clause is evaluated on the
   implementation's trace (runtime); for the model it is proved for steps that start in a `WInv` world
   (`reach_step_noRaise_WInv`), see Props/Reach.lean for what is missing in general.
